@@ -381,6 +381,14 @@ pub fn lookalikes() -> Vec<Call> {
         add("haystack_filter_match_dict", vec![A::F(Some(f)), v(1)]);
         add("haystack_filter_match_dict", vec![A::F(Some(f)), v(0)]);
     }
+    // zone names of every shape come back from the getter as the constructor takes them
+    add("haystack_value_make_date", vec![A::I(2021), A::N(8), A::N(13)]); // @5
+    add("haystack_value_make_time", vec![A::N(12), A::N(34), A::N(56)]); // @6
+    for (i, z) in ["North_Dakota/Center", "Indiana/Knox", "Argentina/Buenos_Aires", "Port-au-Prince", "GMT+5", "Sydney"].iter().enumerate() {
+        add("haystack_value_make_tz_datetime", vec![v(5), v(6), cs(z)]); // @7+i
+        add("haystack_value_get_datetime_timezone", vec![v(7 + i)]);
+        add("haystack_value_to_zinc_string", vec![v(7 + i)]);
+    }
     calls
 }
 
@@ -616,9 +624,14 @@ impl<'a> Walk<'a> {
                     self.push("haystack_value_make_utc_datetime", vec![d, t]);
                 } else {
                     let zones = gen::zones_cached(false);
-                    let tz = match self.rng.below(8) {
+                    let tz = match self.rng.below(10) {
                         0 => "Nowhere".to_string(),
                         1 => "".to_string(),
+                        // every shape of zone name: three segments, '-' and digits in the city, an Etc/GMT offset
+                        8 | 9 => self
+                            .rng
+                            .pick(&["North_Dakota/Center", "America/Indiana/Knox", "Argentina/Buenos_Aires", "Kentucky/Monticello", "Port-au-Prince", "GMT+5", "Etc/GMT-14", "Argentina/ComodRivadavia", "Indiana/Indianapolis"])
+                            .to_string(),
                         2 | 3 => self.rng.pick(zones).name().to_string(),
                         _ => gen::short_name(self.rng.pick(zones)),
                     };
